@@ -226,6 +226,12 @@ def named_arg(p):
         p.eat("&")
         p.macro_null()
         return ("nullLit",)
+    if p.at("std", "::", "slice", "::", "from_ref", "("):
+        # std::slice::from_ref(value): the bound value as a slice of one item
+        p.i += 6
+        var = p.ident()
+        p.eat(")")
+        return ("rawSingle", var)
     var = p.ident()
     if p.at(".", "as_vec", "(", ")"):
         p.i += 4
@@ -318,6 +324,10 @@ def conv_expr(e, bound, cont):
                 if not lo:
                     raise Unsupported("as_vec on a non-list binding")
                 args.append(("itemsOf", pname))
+            elif a[0] == "rawSingle":
+                if lo:
+                    raise Unsupported("list binding used as a value")
+                args.append(("single", pname))
             else:
                 if lo:
                     raise Unsupported("list binding used as a value")
